@@ -152,6 +152,8 @@ pub struct SeamWriter {
     pub zero_at: Option<usize>,
     pub fail_on_flush: bool,
     pub fault_delivered: bool,
+    /// fail exactly once when the output has reached this length, then accept data again
+    pub fail_once_at: Option<usize>,
 }
 
 impl SeamWriter {
@@ -163,6 +165,7 @@ impl SeamWriter {
             zero_at: None,
             fail_on_flush: false,
             fault_delivered: false,
+            fail_once_at: None,
         }
     }
 }
@@ -180,6 +183,15 @@ impl Write for SeamWriter {
                 return Err(io::Error::new(io::ErrorKind::Other, "injected write fault"));
             }
             n = n.min(f - pos);
+        }
+        if let Some(f) = self.fail_once_at {
+            if pos >= f && !self.fault_delivered {
+                self.fault_delivered = true;
+                return Err(io::Error::new(io::ErrorKind::Other, "injected one-off write fault"));
+            }
+            if !self.fault_delivered {
+                n = n.min(f - pos);
+            }
         }
         if let Some(z) = self.zero_at {
             if pos >= z {
